@@ -136,7 +136,7 @@ C['vf_var_holds_i'] = (B('second'), [], ['__CPROVER_return_value == !second'], '
 
 def make(tier):
     P = Plan('C04', level='proof', design_ref='DESIGN.md section 5 C04')
-    P.not_decided += ['either::try_call (depends on catching an exception: unwinding is dropped by the extraction)', 'optional::cat / optional::sequence / either::sequence over std::vector sources (heap containers)',
+    P.not_decided += ['either::try_call (depends on catching an exception: unwinding is dropped by the extraction)', 'optional::cat / optional::sequence / either::sequence over std::vector sources (heap containers; they are checked on fixed-capacity containers)',
                       'variant::apply with several variants, variant::compare']
     P.meta += ['payload types are unsigned/int over their full 32-bit domain and continuations are uninterpreted: by parametricity of the templates the results carry over to all value types and all functions']
     spec = ''
@@ -160,4 +160,31 @@ def make(tier):
         else:
             kw = dict(cls='P', timeout=600)
         u.contract(f, backends=['sat', 'cvc5'], what=what, native=False, **kw)
+    # ---- optional::cat / optional::sequence / either::sequence on fixed-capacity containers (seq.cpp) ----
+    import itertools
+    H = ['h0', 'h1', 'h2']; AV = ['a0', 'a1', 'a2']
+    def filtered(keep, val):
+        cl = []
+        for m in itertools.product((0, 1), repeat=3):
+            cond = ' && '.join(('(%d < n && %s)' % (k, keep(k))) if m[k] else ('!(%d < n && %s)' % (k, keep(k))) for k in range(3))
+            kept = [k for k in range(3) if m[k]]
+            cl.append('VF_IMP(%s, %s)' % (cond, ' && '.join(['*on == %d' % len(kept)] + ['o[%d] == %s' % (j, val(k)) for j, k in enumerate(kept)])))
+        return cl
+    BO = 'n <= 3 && (h0 == 0 || h0 == 1) && (h1 == 0 || h1 == 1) && (h2 == 0 || h2 == 1)'
+    FRS = '__CPROVER_is_fresh(on, 8) && __CPROVER_is_fresh(o, 16)'
+    allh = '(' + ' && '.join('(!(%d < n) || %s)' % (k, H[k]) for k in range(3)) + ')'
+    firstfail = '(!(0 < n && !h0) ? (!(1 < n && !h1) ? a2 : a1) : a0)'
+    S = {}
+    S['vf_opt_cat'] = ([BO, FRS], '*on, __CPROVER_object_whole(o)', filtered(lambda k: H[k], lambda k: AV[k]), 'optional::cat: exactly the values of the set optionals, in order')
+    S['vf_opt_sequence'] = ([BO, FRS], '*on, __CPROVER_object_whole(o)', ['__CPROVER_return_value == %s' % allh, 'VF_IMP(%s, *on == n && %s)' % (allh, ' && '.join('VF_IMP(%d < n, o[%d] == a%d)' % (k, k, k) for k in range(3)))],
+                            'optional::sequence: a value exactly when every optional is set, then all values in order')
+    S['vf_eit_sequence'] = ([BO, FRS + ' && __CPROVER_is_fresh(fail, 4)'], '*on, __CPROVER_object_whole(o), *fail', ['__CPROVER_return_value == %s' % allh, 'VF_IMP(%s, *on == n && %s)' % (allh, ' && '.join('VF_IMP(%d < n, o[%d] == a%d)' % (k, k, k) for k in range(3))),
+                                                                                                    'VF_IMP(!%s, *fail == %s)' % (allh, firstfail)], 'either::sequence (lvalue source): all successes in order, or the FIRST failure')
+    sspec = ''
+    for f, (req, asg, ens, what) in S.items():
+        sspec += 'function %s\n' % f + ''.join('  __CPROVER_requires(%s)\n' % r for r in req) + '  __CPROVER_assigns(%s)\n' % asg + ''.join('  __CPROVER_ensures(%s)\n' % e for e in ens)
+    P.generated['c04s.spec'] = sspec
+    us = P.unit('seq', 'seq.cpp', specs=['c04s.spec'], inline=True)
+    for f, (req, asg, ens, what) in S.items():
+        us.contract(f, cls='W', unwind=6, backends=['sat', 'cvc5'], what=what, native=False, timeout=600, bound='fixed-capacity source and result containers with symbolic size <= 3: loops bounded by the capacity, unwinding assertions on')
     return P
